@@ -89,3 +89,92 @@ func H14_Send() {
 	}
 	verif.Reach("end")
 }
+
+// H14_Restart: the node has sent up to four bundles of one source and creation time (same millisecond or the zero
+// time); any subset of them has left the store since (delivered, expired); the node may have restarted (the id keeper
+// forgets, the store does not). One to three further bundles of the same source and creation time are then submitted:
+// each gets an ID that differs from every other new one and from every bundle still in the store, every stored key
+// still holds the bundle that was filed under it, and nothing already stored is overwritten.
+func H14_Restart() {
+	var log []sendRec
+	dir := verif.TempDir("store")
+	c := testCore("epidemic", dir)
+	defer func() { c.Close() }()
+	zero := verif.Bool("zerotime")
+	mk := func(tag byte) bpv7.Bundle {
+		if zero {
+			b, err := bpv7.Builder().Source("dtn://this/app").Destination("dtn://far/inbox").CreationTimestampEpoch().Lifetime("1h").
+				BundleAgeBlock(uint64(0)).PayloadBlock([]byte{tag}).Build()
+			verif.Assert(err == nil, "bundle builds")
+			return b
+		}
+		b := dataBundle("dtn://this/app", "dtn://far/inbox", 0)
+		b.CanonicalBlocks[len(b.CanonicalBlocks)-1].Value = bpv7.NewPayloadBlock([]byte{tag})
+		return b
+	}
+	type rec struct {
+		id     bpv7.BundleID
+		tag    byte
+		stored bool
+	}
+	var all []*rec
+	nOld := verif.Size("old", 0, verif.Param("old", 4))
+	for i := 0; i < nOld; i++ {
+		b := mk(byte('a' + i))
+		c.SendBundle(&b)
+		all = append(all, &rec{b.ID(), byte('a' + i), true})
+	}
+	for i, r := range all {
+		if verif.Bool(nm("gone", i)) {
+			verif.Assert(c.store.Delete(r.id) == nil, "delete works")
+			r.stored = false
+		}
+	}
+	restarted := verif.Bool("restart")
+	if restarted {
+		c.Close()
+		c = testCore("epidemic", dir)
+	}
+	if verif.Size("peers", 0, 1) == 1 {
+		p := newMockCLA("peer1", &log)
+		c.RegisterConvergable(p)
+		settle()
+	}
+	first := len(all)
+	nNew := verif.Size("new", 1, verif.Param("new", 3))
+	for i := 0; i < nNew; i++ {
+		b := mk(byte('A' + i))
+		c.SendBundle(&b)
+		settle()
+		nr := &rec{b.ID(), byte('A' + i), true}
+		for j, r := range all {
+			if r.stored || j >= first || !restarted {
+				verif.Assert(r.id != nr.id, "a new bundle gets an ID no other bundle of this node has (in the store, or since the last start)")
+			}
+		}
+		all = append(all, nr)
+	}
+	for _, r := range all {
+		if !r.stored {
+			continue
+		}
+		bi, err := c.store.QueryId(r.id)
+		verif.Assert(err == nil, "every bundle sent and not removed is filed in the store")
+		if err == nil {
+			sb, lerr := bi.Parts[0].Load()
+			verif.Assert(lerr == nil, "the filed bundle loads")
+			pl, _ := sb.PayloadBlock()
+			verif.Assert(pl != nil && pl.Value.(*bpv7.PayloadBlock).Data()[0] == r.tag, "each key holds the bundle that was filed under it")
+			verif.Assert(sb.ID() == r.id, "the stored sequence number is the assigned one")
+		}
+	}
+	for _, lr := range log {
+		for _, r := range all {
+			if lr.b.ID() == r.id && r.stored {
+				pl, _ := lr.b.PayloadBlock()
+				verif.Assert(pl.Value.(*bpv7.PayloadBlock).Data()[0] == r.tag, "the transmitted sequence number belongs to the transmitted bundle")
+			}
+		}
+	}
+	verif.Reach("end")
+}
